@@ -1,11 +1,13 @@
-"""C05 - see DESIGN.md section 6."""
+"""C05 - explicit Euler step equals states + dt * rhs."""
 from .. import core
 from . import structural
+from .c06 import run_scheme_corpus
 
 
 def main(chk: core.Check, replay):
     if replay:
         return core.replay_generic(chk, replay)
+    run_scheme_corpus(chk, "C05", {"explicit_euler", "generate"}, fams=[3, 4] if chk.tier == "quick" else [1, 2, 3, 4])
     structural.run(chk, "C05")
 
 
